@@ -289,12 +289,9 @@ class Rows:
                 ex.fact(f)
             self.constructed.append(('empty', columns, out))
             return out
-        if data.kind == 'colmap' and columns.kind == 'none':
+        if data.kind in ('colmap', 'table') and columns.kind == 'none':
             ex.use('callee contract:dictable(dict of equally long lists) has exactly these columns (proved in C01 constructor.columns.*)')
-            n = data.f.get('n')
-            if n is None:
-                raise OutOfSubset('constructor from a dict of columns whose common length is not known')
-            ex.oblige(st, 'call.constructor.pre.columns_equally_long', wf(data, n), kind='pre')
+            ex.oblige(st, 'call.constructor.pre.columns_equally_long', equally_long(data), kind='pre')
             self.constructed.append(('columns', data, out))
             return SV('table', None, dom=data.dom, clen=data.clen, carr=data.carr, cls=fn.f['name'])
         if data.kind == 'none' and columns.kind == 'none':
@@ -652,6 +649,155 @@ class Init:
     def truth(self, ex, st, v):
         if v.kind == 'colmap':
             return BoolVal(False) if v.f.get('empty') else Not(no_columns(v))
+        return NotImplemented
+
+
+# ================================================================================================ slice objects, tuples of column names
+PySlice = z3.DeclareSort('PySlice')
+SLEN = Function('slice_len', PySlice, IntSort(), IntSort())
+SIDX = Function('slice_index', PySlice, IntSort(), IntSort(), IntSort())
+
+
+def slice_axiom(s, L):
+    j = Int('j!sl')
+    return And(0 <= SLEN(s, L), SLEN(s, L) <= If(L >= 0, L, 0),
+               ForAll([j], Implies(And(0 <= j, j < SLEN(s, L)), And(0 <= SIDX(s, L, j), SIDX(s, L, j) < L))))
+
+
+class Slices:
+    """xs[s] for an opaque slice object s: which indices are selected depends on s and len(xs) only (slice.indices), so equally long lists are
+    cut alike; tuples of column names; `callable` / `is_tuple` / membership of non-names in keys()."""
+
+    def subscript(self, ex, st, e, recv, idx):
+        if recv.kind == 'list' and idx.kind == 'pyslice':
+            lst = as_list_sv(recv, VAL)
+            s, L = idx.t, lst.t
+            ex.use('axiom:xs[s] for a slice object s holds xs[i] for the indices i = slice_index(s, len(xs), j), j < slice_len(s, len(xs)): they depend on s and '
+                   'len(xs) only, lie within range and are at most len(xs) many')
+            ex.fact(slice_axiom(s, L))
+            j = Int(fresh_name('j!slc'))
+            return SV('list', SLEN(s, L), ety=lst.ety, arrs=[Lambda([j], Select(a, SIDX(s, L, j))) for a in lst.arrs])
+        return NotImplemented
+
+    def call(self, ex, st, e, fname, args, kwargs):
+        a0 = args[0] if args else None
+        if fname == 'is_tuple' and len(args) == 1 and a0.kind != 'val':
+            return B(a0.kind == 'tuple')
+        if fname == 'callable' and len(args) == 1 and a0.kind in ('key', 'tuple', 'list', 'pyslice', 'int'):
+            return B(False)
+        if fname in ('is_int', 'is_arr') and len(args) == 1 and a0.kind in ('key', 'tuple', 'pyslice', 'list'):
+            return B(False)
+        return NotImplemented
+
+    def compare(self, ex, st, e, op, a, b):
+        if op in ('In', 'NotIn') and b.kind == 'tkeys' and a.kind in ('tuple', 'pyslice', 'int', 'list'):
+            ex.use('path precondition:column names are strings (a tuple / slice / int is not a key of the table)')
+            return BoolVal(op == 'NotIn')
+        return NotImplemented
+
+    def listcomp(self, ex, st, e):
+        """[f(x) for x in <tuple display>]: evaluated element by element"""
+        if len(e.generators) != 1 or e.generators[0].ifs or e.generators[0].is_async:
+            return NotImplemented
+        g = e.generators[0]
+        probe = st.fork()
+        try:
+            it = ex.eval(probe, g.iter)
+        except OutOfSubset:
+            return NotImplemented
+        if it.kind != 'tuple' or probe.pending:
+            return NotImplemented
+        out = []
+        for x in it.items:
+            sub = st.fork(); sub.env = dict(st.env); sub.guards = list(st.guards); sub.pending = []
+            ex.assign(sub, g.target, x, None)
+            out.append(ex.eval(sub, e.elt))
+            st.pending.extend(sub.pending)
+            st.pc = sub.pc
+        return SV('lazylist', None, n=IntVal(len(out)), items=out, at=None)
+
+    def pre_call(self, ex, st, e):
+        # zip(*[col_0, ..., col_k-1]) for k >= 1 equally long lists known one by one: the list of row tuples (columnwise representation)
+        if isinstance(e.func, ast.Name) and e.func.id == 'zip' and len(e.args) == 1 and isinstance(e.args[0], ast.Starred) and not e.keywords:
+            probe = st.fork()
+            try:
+                v = ex.eval(probe, e.args[0].value)
+            except OutOfSubset:
+                return NotImplemented
+            if v.kind != 'lazylist' or not v.f.get('items') or not all(x.kind == 'list' for x in v.f['items']):
+                return NotImplemented
+            v = ex.eval(st, e.args[0].value)
+            from .th_lists import TUP
+            ls = [as_list_sv(x, VAL) for x in v.f['items']]
+            for l in ls[1:]:
+                ex.oblige(st, 'zip.equal_lengths', l.t == ls[0].t, kind='pre')
+            ex.use('axiom:zip of equally long lists is the list of tuples of their j-th elements (columnwise representation)')
+            arrs = []
+            for l in ls:
+                arrs += l.arrs
+            return SV('list', ls[0].t, ety=TUP(*[l.ety for l in ls]), arrs=arrs)
+        return NotImplemented
+
+
+# ================================================================================================ deleting a column
+def without_column(t, k):
+    return SV('table', None, dom=Store(t.dom, k, BoolVal(False)), clen=t.clen, carr=t.carr, cls=t.f.get('cls'))
+
+
+class Deletes:
+    """del d[name] / super().__delitem__(name) / d.copy().  `level`: 'dict' - only the dict-level delete is an axiom (for the section that proves
+    dictattr.__delitem__ on its body); 'contract' - dictattr.__delitem__(name) by its contract (for its callers)."""
+
+    def __init__(self, level='contract'):
+        self.level = level
+
+    def _dict_delete(self, ex, st, t, k):
+        ex.use('axiom:dict.__delitem__(k) removes the key k and nothing else; KeyError when k is not a key')
+        ex.raise_if(st, Not(Select(t.dom, k)), 'KeyError')
+        return without_column(t, k)
+
+    def _contract(self, ex, st, t, k):
+        ex.use('callee contract:del d[name] removes the column `name` and nothing else; KeyError when there is no such column (dictattr.__delitem__, proved in C01 __delitem__.*)')
+        ex.raise_if(st, Not(Select(t.dom, k)), 'KeyError')
+        return without_column(t, k)
+
+    def method(self, ex, st, e, recv, mname, args, kwargs):
+        if recv.kind == 'super' and mname == '__delitem__' and len(args) == 1 and args[0].kind == 'key':
+            call = e.func.value
+            owner = call.args[0].id if isinstance(call, ast.Call) and call.args and isinstance(call.args[0], ast.Name) else None
+            t = recv.f['of']
+            if owner == 'dictattr':
+                new = self._dict_delete(ex, st, t, args[0].t)        # dictattr's base is dict
+            elif owner == 'dictable' and self.level == 'contract':
+                new = self._contract(ex, st, t, args[0].t)           # dictable's base Dict / dictattr: dictattr.__delitem__
+            else:
+                return NotImplemented
+            if not recv.f.get('name'):
+                raise OutOfSubset('super().__delitem__ on an unnamed receiver')
+            st.env[recv.f['name']] = new
+            return NONE
+        if recv.kind == 'table' and mname == 'copy' and not args:
+            ex.use('model:d.copy() is a new table object holding the same columns (sharing of the column lists is the frame checker\'s business)')
+            return recv
+        if recv.kind == 'key' and mname == 'startswith' and len(args) == 1 and args[0].kind == 'str' and args[0].lit == '_':
+            ex.use('path precondition:column names do not start with an underscore and contain no dot')
+            return B(False)
+        return NotImplemented
+
+    def delete_subscript(self, ex, st, tg, recv, idx):
+        if recv.kind == 'table' and idx.kind == 'key' and self.level == 'contract':
+            return self._contract(ex, st, recv, idx.t)
+        return NotImplemented
+
+    def call(self, ex, st, e, fname, args, kwargs):
+        if fname == 'is_str' and len(args) == 1 and args[0].kind == 'key':
+            return B(True)
+        return NotImplemented
+
+    def compare(self, ex, st, e, op, a, b):
+        if op in ('In', 'NotIn') and b.kind == 'key' and a.kind == 'str' and a.lit == '.':
+            ex.use('path precondition:column names do not start with an underscore and contain no dot')
+            return BoolVal(op == 'NotIn')
         return NotImplemented
 
 
